@@ -13,6 +13,7 @@ import (
 
 	"github.com/tobgu/qframe"
 	"github.com/tobgu/qframe/aggregation"
+	qcsv "github.com/tobgu/qframe/config/csv"
 	"github.com/tobgu/qframe/config/eval"
 	"github.com/tobgu/qframe/config/groupby"
 	"github.com/tobgu/qframe/types"
@@ -61,10 +62,10 @@ type c11Env struct {
 	// one function value obtained from the library, used by every goroutine of the case
 	strJoin func([]*string) *string
 	// one clause value (holding unsorted value lists) used by every goroutine of the case, and copies of its lists
-	sharedClause               qframe.FilterClause
-	inInts, inIntsCopy         []int
-	inStrings, inStringsCopy   []string
-	inFloats, inFloatsCopy     []float64
+	sharedClause             qframe.FilterClause
+	inInts, inIntsCopy       []int
+	inStrings, inStringsCopy []string
+	inFloats, inFloatsCopy   []float64
 	// one Grouper per frame of the case, used by every goroutine (set only when the operation is part of the case)
 	gA, gB   qframe.Grouper
 	gALen    int
@@ -319,6 +320,17 @@ func c11Ops() []c11Op {
 		{"ToCSV", func(e *c11Env, f qframe.QFrame, _ func()) uint64 {
 			var b bytes.Buffer
 			if err := f.ToCSV(&b); err != nil {
+				return 2
+			}
+			return fw.Hash64(b.String())
+		}},
+		{"ToCSV(Columns(reversed order), Header(false))", func(e *c11Env, f qframe.QFrame, _ func()) uint64 {
+			names := f.ColumnNames()
+			for i, j := 0, len(names)-1; i < j; i, j = i+1, j-1 {
+				names[i], names[j] = names[j], names[i]
+			}
+			var b bytes.Buffer
+			if err := f.ToCSV(&b, qcsv.Columns(names), qcsv.Header(false)); err != nil {
 				return 2
 			}
 			return fw.Hash64(b.String())
